@@ -57,10 +57,16 @@ theorem consumer_step (s : Ring.St) (t : Nat) (h : Ring.Inv s) (hc : ConsLoc (s.
     · right; right; exact ⟨by simp [ConsLoc], Ring.abs_congr rfl rfl⟩
   case cRead id => right; right; simp only [Ring.step, hl]; exact ⟨by simp [ConsLoc], Ring.abs_congr rfl rfl⟩
 
+/-- the step after a publication (`len_after_publishing`): the call returns, the pending content is untouched -/
+theorem plen_step (s : Ring.St) (t sid : Nat) (hl : s.thr t = .pLen sid) :
+    (∃ len, (Ring.step s t).thr t = .done (.sent len)) ∧ Ring.abs (Ring.step s t) = Ring.abs s := by
+  simp only [Ring.step, hl]
+  exact ⟨⟨max 1 (sid + 1 - s.head), by simp⟩, Ring.abs_congr rfl rfl⟩
+
 /-- one step of a plain producer of `v`: it publishes `v` at the back (then there was room), or answers `full`, or is still
     inside the operation -/
 theorem producer_step (s : Ring.St) (t v : Nat) (h : Ring.Inv s) (hp : ProdLoc v (s.thr t)) :
-    (∃ len, (Ring.step s t).thr t = .done (.sent len) ∧ Ring.abs (Ring.step s t) = Ring.abs s ++ [v]) ∨
+    (∃ sid, (Ring.step s t).thr t = .pLen sid ∧ Ring.abs (Ring.step s t) = Ring.abs s ++ [v]) ∨
     ((Ring.step s t).thr t = .done .full ∧ Ring.abs (Ring.step s t) = Ring.abs s ∧
         ∃ w id b, s.thr t = .pRecede w id false b ∧ s.enqTail = id + 1) ∨
     (ProdLoc v ((Ring.step s t).thr t) ∧ Ring.abs (Ring.step s t) = Ring.abs s) := by
@@ -70,7 +76,7 @@ theorem producer_step (s : Ring.St) (t v : Nat) (h : Ring.Inv s) (hp : ProdLoc v
     subst hp
     by_cases he : s.tail = id
     · left
-      refine ⟨len, by simp [Ring.step, hl, he], ?_⟩
+      refine ⟨id, by simp [Ring.step, hl, he], ?_⟩
       simp only [Ring.step, hl, he, if_true, Ring.abs, Ring.acc_setThr, Ring.head_setThr]
       rw [List.drop_append_of_le_length (by omega)]
     · right; right
